@@ -6,7 +6,7 @@ Pure reading of Cython/Utility/*.c|h|cpp and the compiler sources; no compiler o
 import ast, collections, os, re
 
 from ..core import Rule, AnalysisError
-from ..rules import pC39, tabs, num, sC39
+from ..rules import pC39, tabs, num, sC39, s4C39
 from ..engine import cutil
 
 ID = 'C39'
@@ -17,7 +17,8 @@ TECHNIQUE = ('must-analysis of #define/#undef over the #if tree of the platform 
              'length its PyUnicode_New variant allocates; abstract evaluation of the #if variants of one helper macro (reference ownership lattice new/borrowed/null, object family of '
              'the C-API applied to the first argument; small path-sensitive walk for C function variants); complete decision table of the __Pyx_PyLong_* sign/size macros over '
              'sign x digit count for both integer layouts; reconstruction of the emitted __Pyx_Decompress* calls (f-string / %-format / .format) with name resolution through locals, '
-             'loop targets, list rows and call sites')
+             'loop targets, list rows and call sites; result-type classification of every return of the expanded PyLongBinop / PyFloatBinop / PyLongCompare fast paths against the '
+             'type the running interpreter\'s operator yields for the guarded operand kinds (instantiations enumerated by path-forking interpretation of optimise_numeric_binop)')
 DECIDES = ('(M3a) in ModuleSetupCode.c the branches of the platform selection (#if CYTHON_LIMITED_API / GraalPy / PyPy / CPython) leave the same set of CYTHON_* '
            'feature macros certainly defined on every preprocessor path; (M3b) every CYTHON_* macro whose *value* is read by an #if/#elif in Cython/Utility '
            '(not protected by a defined() guard) is #defined somewhere in Cython/Utility or emitted as a #define by Cython/Compiler/*.py - an undefined '
@@ -38,8 +39,13 @@ DECIDES = ('(M3a) in ModuleSetupCode.c the branches of the platform selection (#
            'named after. (SIGN) with CYTHON_USE_PYLONG_INTERNALS the sign/size macros of the 3.12 tag-word layout and of the ob_size layout return, for every sign x digit count, what their name '
            'promises (IsNeg/IsNonNeg/IsZero/IsNonZero/IsPos/Sign/DigitCount/SignedDigitCount/CompactValue/CompactValueUnsigned; IsCompact one-sided: true only for ints of at most one digit - it merely gates fast paths), other names the same value in both layouts; the fallback '
            '_PyLong_* constants equal cpython/longintrepr.h. (STRTAB) every emitted __Pyx_DecompressString*/LZSS call passes len() of the array written under the C name it passes, and len() of the data '
-           'that was compressed into it for the result-size parameter; no preprocessor branch #defines the macro that compiles the helper it calls to `return NULL`.')
-NOT_DECIDED = ('behavioural equality of the branches selected by a feature macro beyond the result length of the unicode builder (the characters written, '
+           'that was compressed into it for the result-size parameter; no preprocessor branch #defines the macro that compiles the helper it calls to `return NULL`. '
+           '(KIND, sa/rules/s4C39.py) for every (section, operator, order) that optimise_numeric_binop requests from PyLongBinop / PyFloatBinop / PyLongCompare, every return of the '
+           'expanded fast path (compiled only with CYTHON_USE_PYLONG_INTERNALS / outside PyPy) yields an object of the Python type that the generic PyNumber_<Op> / RichCompare path yields for '
+           'the operand types guarding that return (int / float / bool); a return not dominated by a type test is right for int and float operands; a direct Py<T>_Type nb_<slot> call uses '
+           'the slot PyNumber_<Op> dispatches to.')
+NOT_DECIDED = ('behavioural equality of the branches selected by a feature macro beyond the result length of the unicode builder and the result TYPE of the numeric fast paths (KIND; the VALUE they compute is '
+               'decided under C02-FAST, not here; PyNumberBinop / py_abs / PyNumberPow2 fast paths are not classified) (the characters written, '
                '__Pyx_PyUnicode_Join whose fallback length depends on the joined values); C versus C++ semantics; optimisation levels; the semantics-neutral directives '
                '(binding, optimize.*, always_allow_keywords, auto_pickle); the text of the emitted `#if (CYTHON_COMPRESS_STRINGS) == n` chain beyond the table '
                '(its #else fallback is emitted from string fragments and is not modelled); M1 of the design (clang -fsyntax-only of assembled translation units '
@@ -60,6 +66,8 @@ ASSUMPTIONS = ['an identifier that is not #defined evaluates to 0 in #if (C11 6.
                'constructors/conversions (From*/New*) and functions whose first parameter is not an object; FrozenSet/AnySet=Set, AnyDict/FrozenDict/ODict=Dict, Bool=Long',
                'C39-SIGN: 3.12 tag word = (ndigits << _PyLong_NON_SIZE_BITS) | {positive 0, zero 1, negative 2}; before 3.12 ob_size = sign * ndigits; zero has no digits (its digit[0] is 0 in the '
                'tag layout, undefined in the ob_size layout); casts to signed types are value preserving on the small values of the domain',
+               'C39-KIND: the object parameter of a fast-path entry that is not type-tested is the constant operand whose C value arrives as `long intval` / `double floatval` (int / float; '
+               'decided by C02-ORDER); Py<T>_From* / Py<T>_New return a <T>; number slot -> special method as in CPython typeobject.c slotdefs (frozen in sa/rules/s4C39.py)',
                'C39-STRTAB: a name assigned inside a loop and read outside of it holds the value of the last iteration; the writer of a C array is the call that receives the C variable name as a string '
                'constant next to the data']
 
@@ -427,4 +435,6 @@ def run(ctx):
     rules.append(sC39.rule_fam(ctx))
     rules.append(sC39.rule_sign(ctx))
     rules.append(sC39.rule_strtab(ctx))
+    # ---------------------------------------------------------------- round 6: fast paths under a feature switch return the object type of the generic path
+    rules.append(s4C39.rule_kind(ctx))
     return rules
